@@ -388,6 +388,62 @@ def gen_net_cases(ctx):
     c3 = [("N", b"c1"), ("M", b"c", B(lit=b"\x04")), ("E",)]
     same.append(NetCase([("-", a), ("-", b), ("-", c3)], order=[0, 0, 0, 1, 1, 2, 1, 2, 1, 2],
                         desc="same name, NAME.old in use"))
+    # 5b. >= 3 clients connected at once, names repeated with other clients in between
+    #     (the name search has to look at the whole client list, not only at its head)
+    X, Y, Z = b"x", b"y", b"z"
+    patterns = [[X, Y, X], [X, X, X], [X, Y, X + b".old"], [X + b".old", Y, X], [X, Y, Y, X],
+                [X, X + b".1", X], [X, Y, Z, X], [Y, X, X], [b"xa", X, b"xa"], [X, b"xa", X],
+                [X, Y, X, Y, X], [X, Y, X + b".old", X]]
+
+    def small_client(j, name):
+        return [("N", name), ("WB", 10 + j, B(lit=bytes([j + 1]))), ("WB", 10 + j, B(lit=bytes([j + 17]))),
+                ("M", b"task.txt", B(lit=bytes([j + 33]))), ("E",)]
+
+    def orders(k):
+        n, d1, d2, m, e = ([j for j in range(k)] for _ in range(5))
+        yield "connect all, finish in order", n + d1 + d2 + m + e
+        yield "connect all, finish in reverse", n + d1 + d2 + m + e[::-1]
+        # staggered: each client has sent something before the next one connects
+        o = []
+        for j in range(k):
+            o += [j] + [i for i in range(j + 1)]
+        left = {j: 4 - (k - j) for j in range(k)}
+        for j in range(k):
+            o += [j] * max(0, left[j])
+        yield "staggered", o
+        # first client finished before the last one connects (its rotation to .old is by design)
+        yield "first finished early", [0] * 5 + n[1:] + d1[1:] + d2[1:] + m[1:] + e[1:]
+    for names in patterns:
+        k = len(names)
+        for oname, o in orders(k):
+            # keep each client's own unit order: the j-th occurrence of client i is its j-th unit
+            cnt = [0] * k
+            oo = []
+            for i in o:
+                if cnt[i] < 5:
+                    cnt[i] += 1
+                    oo.append(i)
+            for i in range(k):
+                oo += [i] * (5 - cnt[i])
+            same.append(NetCase([(rng.choice(["-", "1", "5"]), small_client(j, nm)) for j, nm in enumerate(names)],
+                                order=oo, desc="repeated names %s, %s" %
+                                (",".join(n.decode() for n in names), oname)))
+    pool = [X, X, Y, X + b".old", X + b".1", Y + b".old"]
+    for i in range(20 if not thorough else 600):
+        k = rng.choice([3, 3, 4, 5])
+        names = [rng.choice(pool) for _ in range(k)]
+        cl = [(rng.choice(["1", "-", "5"]), rand_client(rng, nm, big_ok=False)) for nm in names]
+        order = []
+        for j in range(k):
+            order += [j] * len(expand(cl[j][1]))
+        rng.shuffle(order)
+        if rng.random() < 0.5:
+            # connect everybody first (in client order), then interleave the rest
+            rest = list(order)
+            for j in range(k):
+                rest.remove(j)
+            order = list(range(k)) + rest
+        same.append(NetCase(cl, order=order, desc="repeated names random " + ",".join(n.decode() for n in names)))
     # sequential reuse of a name (first client finished): rotation to .old is by design
     seq = [(rng.choice(["1", "-"]), rand_client(rng, b"d", big_ok=False, style="single")) for _ in range(2)]
     n0 = len(expand(seq[0][1]))
@@ -520,23 +576,54 @@ def unit_monitor(line, impl):
     return None
 
 
-def match_dirs(tree, expected):
-    """each client's expected files must be one received directory NAME or NAME.<k>,
-    each directory used once.  expected: list of (hexname, files)"""
-    used = set()
-    for name, files in expected:
-        def is_own0(d):
-            return d == name or (d.startswith(name + "2e") and len(d) > len(name) + 2 and
-                                 all(c in "0123456789" for c in bytes.fromhex(d[len(name) + 2:]).decode("latin1")))
+def expected_tree(case, local_files):
+    """The property as a specification of the received tree, independent of the
+    Lean model: every client owns one directory holding exactly the local
+    recording of its buffers; a directory is only ever renamed to NAME.old or
+    replaced after its client has finished (that rotation is create_directory's
+    design); a new client whose NAME (or the NAME.old its creation replaces)
+    belongs to a connected client gets NAME.1, NAME.2, ….
+    Returns ({hexdirname: files}, None) or (None, reason)."""
+    units = [expand(steps) for _, steps in case.clients]
+    k = len(units)
+    order = list(case.order) if case.order else []
+    cur = [0] * k
+    seq = []
+    for i in order:
+        if cur[i] < len(units[i]):
+            seq.append((i, units[i][cur[i]]))
+            cur[i] += 1
+    for i in range(k):                       # the relay drains what is left, client by client
+        while cur[i] < len(units[i]):
+            seq.append((i, units[i][cur[i]]))
+            cur[i] += 1
+    active, owner = {}, {}
+    for i, unit in seq:
+        for tok in unit:
+            if tok.startswith("N:"):
+                n = bytes.fromhex(tok[2:]) if tok[2:] != "-" else b""
+                cand, j = n, 0
+                while any(d == cand or d == cand + b".old" for d in active.values()):
+                    j += 1
+                    cand = n + b"." + str(j).encode()
+                if cand in owner:
+                    owner[cand + b".old"] = owner[cand]
+                owner[cand] = i
+                active[i] = cand
+            elif tok == "E":
+                active.pop(i, None)
+    return {d.hex(): local_files[i] for d, i in owner.items()}, None
 
-        def is_own(d):
-            # NAME, NAME.<k>, or either rotated to .old after this client had finished
-            return is_own0(d) or (d.endswith("2e6f6c64") and is_own0(d[:-8]))
-        cands = [d for d in tree if is_own(d) and d not in used and tree[d] == files]
-        if not cands:
-            return "the directory of client %r does not hold exactly what that client sent" % \
-                bytes.fromhex(name).decode("latin1")
-        used.add(sorted(cands, key=len)[0])
+
+def tree_diff(tree, exp):
+    for d in sorted(set(tree) | set(exp)):
+        nm = bytes.fromhex(d).decode("latin1")
+        if d not in tree:
+            return "directory %r is missing" % nm
+        if d not in exp:
+            return "unexpected directory %r" % nm
+        if tree[d] != exp[d]:
+            return "directory %r does not hold exactly what its client sent" % nm
     return None
 
 
@@ -708,11 +795,10 @@ def run(ctx):
             elif tree is None:
                 bad = "unreadable tree"
             else:
-                exp = []
-                for j, (_, steps) in enumerate(c.clients):
-                    nm = [s[1] for s in steps if s[0] == "N"][0]
-                    exp.append((nm.hex(), parse_files(limpl[local_idx[(i, j)]])))
-                bad = match_dirs(tree, exp)
+                exp, bad = expected_tree(c, [parse_files(limpl[local_idx[(i, j)]])
+                                             for j in range(len(c.clients))])
+                if exp is not None:
+                    bad = tree_diff(tree, exp)
         if len(samples) < 4 and i % 61 == 7:
             samples.append({"model_input": ml0[i][:300], "impl": mi[:300], "model": a1[:300]})
         if (mi == a1 or mi == a0) and not bad:
